@@ -23,7 +23,7 @@ static int sch_bbs(sess_t *s) {
 			return 1;
 		}
 		case 3:
-			if (s->flag[0]) log_ver(s, "ver", cp_bbs_ver(s->g1[5], s->buf[0], s->blen[0], (int)s->opt[0], s->g2[5], s->gt[5]) == 1);
+			if (s->flag[0]) log_ver(s, "ver", cp_bbs_ver(s->g1[5], EX(s->buf[0], s->blen[0]), s->blen[0], (int)s->opt[0], s->g2[5], s->gt[5]) == 1);
 			else tr_printf("VER %d ver decode-failed\n", s->sid);
 			return 0;
 	}
@@ -45,7 +45,7 @@ static int sch_zss(sess_t *s) {
 			return 1;
 		}
 		case 3:
-			if (s->flag[0]) log_ver(s, "ver", cp_zss_ver(s->g2[5], s->buf[0], s->blen[0], (int)s->opt[0], s->g1[5], s->gt[5]) == 1);
+			if (s->flag[0]) log_ver(s, "ver", cp_zss_ver(s->g2[5], EX(s->buf[0], s->blen[0]), s->blen[0], (int)s->opt[0], s->g1[5], s->gt[5]) == 1);
 			else tr_printf("VER %d ver decode-failed\n", s->sid);
 			return 0;
 	}
@@ -74,7 +74,7 @@ static int sch_cls(sess_t *s) {
 			return 1;
 		}
 		case 3:
-			if (s->flag[0]) log_ver(s, "ver", cp_cls_ver(s->g1[5], s->g1[6], s->g1[7], s->buf[0], s->blen[0], s->g2[5], s->g2[6]) == 1);
+			if (s->flag[0]) log_ver(s, "ver", cp_cls_ver(s->g1[5], s->g1[6], s->g1[7], EX(s->buf[0], s->blen[0]), s->blen[0], s->g2[5], s->g2[6]) == 1);
 			else tr_printf("VER %d ver decode-failed\n", s->sid);
 			return 0;
 	}
@@ -106,7 +106,7 @@ static int sch_cli(sess_t *s) {
 			return 1;
 		}
 		case 3:
-			if (s->flag[0]) log_ver(s, "ver", cp_cli_ver(s->g1[5], s->g1[6], s->g1[7], s->g1[8], s->g1[9], s->buf[0], s->blen[0],
+			if (s->flag[0]) log_ver(s, "ver", cp_cli_ver(s->g1[5], s->g1[6], s->g1[7], s->g1[8], s->g1[9], EX(s->buf[0], s->blen[0]), s->blen[0],
 						s->b[12], s->g2[5], s->g2[6], s->g2[7]) == 1);
 			else tr_printf("VER %d ver decode-failed\n", s->sid);
 			return 0;
@@ -284,7 +284,7 @@ static int sch_vbnn(sess_t *s) {
 			return 1;
 		}
 		case 4:
-			if (s->flag[0]) log_ver(s, "ver", cp_vbnn_ver(s->e[6], s->b[12], s->b[13], s->buf[1], s->blen[1], s->buf[0], (int)s->blen[0], s->e[5]) == 1);
+			if (s->flag[0]) log_ver(s, "ver", cp_vbnn_ver(s->e[6], s->b[12], s->b[13], EX(s->buf[1], s->blen[1]), s->blen[1], EX(s->buf[0], s->blen[0]), (int)s->blen[0], s->e[5]) == 1);
 			else tr_printf("VER %d ver decode-failed\n", s->sid);
 			return 0;
 	}
@@ -311,7 +311,7 @@ static int sch_pokdl(sess_t *s) {
 		}
 		case 3:
 			if (s->flag[0]) {
-				if (sok) log_ver(s, "ver", cp_sokdl_ver(s->b[12], s->b[13], s->buf[0], s->blen[0], s->e[5]) == 1);
+				if (sok) log_ver(s, "ver", cp_sokdl_ver(s->b[12], s->b[13], EX(s->buf[0], s->blen[0]), s->blen[0], s->e[5]) == 1);
 				else log_ver(s, "ver", cp_pokdl_ver(s->b[12], s->b[13], s->e[5]) == 1);
 			} else tr_printf("VER %d ver decode-failed\n", s->sid);
 			return 0;
@@ -352,7 +352,7 @@ static int sch_pokor(sess_t *s) {
 		}
 		case 3:
 			if (s->flag[0]) {
-				if (sok) log_ver(s, "ver", cp_sokor_ver((const bn_t *)(s->b + 12), (const bn_t *)(s->b + 14), s->buf[0], s->blen[0], (const ec_t *)(s->e + 5), NULL) == 1);
+				if (sok) log_ver(s, "ver", cp_sokor_ver((const bn_t *)(s->b + 12), (const bn_t *)(s->b + 14), EX(s->buf[0], s->blen[0]), s->blen[0], (const ec_t *)(s->e + 5), NULL) == 1);
 				else log_ver(s, "ver", cp_pokor_ver((const bn_t *)(s->b + 12), (const bn_t *)(s->b + 14), (const ec_t *)(s->e + 5)) == 1);
 			} else tr_printf("VER %d ver decode-failed\n", s->sid);
 			return 0;
@@ -419,7 +419,7 @@ static int sch_ers(sess_t *s) {
 			return 1;
 		}
 		case 4:
-			if (s->flag[0]) log_ver(s, "ver", cp_ers_ver(s->b[12], (const ers_t *)rb, s->blen[5], s->buf[0], s->blen[0], s->e[5]) == 1);
+			if (s->flag[0]) log_ver(s, "ver", cp_ers_ver(s->b[12], (const ers_t *)rb, s->blen[5], EX(s->buf[0], s->blen[0]), s->blen[0], s->e[5]) == 1);
 			else tr_printf("VER %d ver decode-failed\n", s->sid);
 			return 0;
 	}
@@ -1267,7 +1267,7 @@ static int sch_smlers(sess_t *s) {
 			return 1;
 		}
 		case 4:
-			if (s->flag[0]) log_ver(s, "ver", cp_smlers_ver(s->b[12], (smlers_t *)rb, s->blen[5], s->buf[0], s->blen[0], s->e[5]) == 1);
+			if (s->flag[0]) log_ver(s, "ver", cp_smlers_ver(s->b[12], (smlers_t *)rb, s->blen[5], EX(s->buf[0], s->blen[0]), s->blen[0], s->e[5]) == 1);
 			else tr_printf("VER %d ver decode-failed\n", s->sid);
 			return 0;
 	}
